@@ -12,7 +12,7 @@ import (
 func init() {
 	register(&propDef{
 		ID:       "C09",
-		Explain:  "Decided (structural necessary conditions; model equivalence with a prefix-free map is NOT decided): sorted walks and String() never act in map iteration order (keys collected, sorted, then visited; no visitor call or recursion inside a range over a map); internalDelete's selection: a leaf reached with an exhausted path or one trailing glob is always offered to the condition (no early exit in front of the terminal/glob test) and is removed, reported and handed to the callback exactly when the condition accepts it; pruning: a child is deleted from its parent's map only after its recursive call reported it removable, a branch reached through a glob reports itself removable exactly when it has become empty (evaluated at 0/1 remaining children, with and without remaining glob elements), WalkDeleted/DeleteConditional clear the root only on that flag; an empty node (nil) is never offered to the condition; visitors are invoked at most once per node activation; Walk/WalkSorted hand every child its own copy of the path; Delete passes a constant-true condition. Also decided: with retDeletedPaths set the paths reported by a child's visit reach the result whether or not the child became removable, and the explicit-child arm returns the child's list; Walk/WalkSorted visit a leaf stored at the root exactly once with its own value and do not visit an empty root. Also decided: the per-node decision table of the query descent (queryInternal with enumerateChildren inlined: 18 rows over node kind x remaining path, incl. that every descent extends the reported prefix by the child's own key) - the same table internalDelete is held to, which now includes that a leaf reached with more path left (plain element, or glob followed by further elements) is never removed; add atomicity (terminalAdd / intermediateAdd / slowAdd: an error path made in the function writes nothing and does not descend; a branch node is refused by terminalAdd, a path through a leaf by the other two; terminalAdd stores exactly its value parameter). Round-3 additions: what may hand out a node's content ((*Tree).Value returns nil for a branch; only it and the leaf-handle accessor return it; package ctree never calls its own handle methods); who may store into a node's content and what; Add only dispatches (makes no error of its own). Round-4 additions to the query table: a branch is replayed with exactly two children and both must be descended into; a child stored under the literal name * does not capture a glob.",
+		Explain:  "Decided (structural necessary conditions; model equivalence with a prefix-free map is NOT decided): sorted walks and String() never act in map iteration order (keys collected, sorted, then visited; no visitor call or recursion inside a range over a map); internalDelete's selection: a leaf reached with an exhausted path or one trailing glob is always offered to the condition (no early exit in front of the terminal/glob test) and is removed, reported and handed to the callback exactly when the condition accepts it; pruning: a child is deleted from its parent's map only after its recursive call reported it removable, a branch reached through a glob reports itself removable exactly when it has become empty (evaluated at 0/1 remaining children, with and without remaining glob elements), WalkDeleted/DeleteConditional clear the root only on that flag; an empty node (nil) is never offered to the condition; visitors are invoked at most once per node activation; Walk/WalkSorted hand every child its own copy of the path; Delete passes a constant-true condition. Also decided: with retDeletedPaths set the paths reported by a child's visit reach the result whether or not the child became removable, and the explicit-child arm returns the child's list; Walk/WalkSorted visit a leaf stored at the root exactly once with its own value and do not visit an empty root. Also decided: the per-node decision table of the query descent (queryInternal with enumerateChildren inlined: 18 rows over node kind x remaining path, incl. that every descent extends the reported prefix by the child's own key) - the same table internalDelete is held to, which now includes that a leaf reached with more path left (plain element, or glob followed by further elements) is never removed; add atomicity (terminalAdd / intermediateAdd / slowAdd: an error path made in the function writes nothing and does not descend; a branch node is refused by terminalAdd, a path through a leaf by the other two; terminalAdd stores exactly its value parameter). Round-3 additions: what may hand out a node's content ((*Tree).Value returns nil for a branch; only it and the leaf-handle accessor return it; package ctree never calls its own handle methods); who may store into a node's content and what; Add only dispatches (makes no error of its own). Round-4 additions to the query table: a branch is replayed with exactly two children and both must be descended into; a child stored under the literal name * does not capture a glob. Round-5 additions: the exact-path lookup table (Get / GetLeaf / GetLeafValue) in recursive or loop form; the append-ownership audit over package ctree (paths handed to callers and callbacks do not share a backing array).",
 		NotCover: "model equivalence over operation sequences (the per-node tables of add, query and delete are decided; their closure over sequences is not); slowAdd's newBranch chain building a complete path",
 		Run:      runC09,
 	})
